@@ -19,12 +19,16 @@ def textOf (h : String) : Option Bytes := if h == "-" then some [] else ofHex h
 
 def spendArgs (a : List String) : Option Model.SpendArgs :=
   match a with
-  | tx :: txin :: sel :: fl :: z :: pv :: _ =>
-    match textOf tx, textOf txin, parseIntD sel, fl.toNat? with
-    | some tx, some txinT, some sel, some fl =>
+  | tx :: txin :: sel :: fl :: z :: pv :: rest =>
+    let scriptF := rest.getD 1 "-"
+    let stackF := rest.getD 2 "-"
+    match textOf tx, textOf txin, parseIntD sel, fl.toNat?, parseItems stackF with
+    | some tx, some txinT, some sel, some fl, some items =>
       some { txText := tx, txinText := if txin == "-" then none else some txinT, select := sel, flags := fl,
-             allowDisabled := z == "1", pretend := if pv == "-" then none else textOf pv }
-    | _, _, _, _ => none
+             allowDisabled := z == "1", pretend := if pv == "-" then none else textOf pv,
+             script := if scriptF == "-" then none else (if scriptF == "_" then some [] else ofHex scriptF),
+             stackArgs := items }
+    | _, _, _, _, _ => none
   | _ => none
 
 def spendObs (before after : Model.IEnv) : String :=
@@ -83,6 +87,56 @@ def cmdSpendModel (a : List String) : String :=
 end Driver
 
 namespace Driver
-/-- spec voice: placeholder until the signature oracle exists -/
-def cmdSpendSpec (_a : List String) : String := "verdict=?"
+
+def specPrims : Spec.Prims where
+  sha256 := Crypto.sha256
+  ripemd160 := Crypto.ripemd160
+  sha1 := Crypto.sha1
+  ecdsaVerify := Crypto.ecdsaVerify
+  schnorrVerify := Crypto.schnorrVerify
+  checkLowS := fun s => Crypto.checkLowS s
+  tap := Glue.tapOracle
+
+/-- spec voice: Bitcoin's verdict on the input that the session is about; with an explicit script, Bitcoin's
+    evaluation of that script in the context of the transaction -/
+def cmdSpendSpec (a : List String) : String :=
+  match spendArgs a with
+  | none => "bad-op"
+  | some args =>
+    match Model.parseTransactionArg args.txText with
+    | none => "verdict=REFUSED"
+    | some (amts, tx, _) =>
+      let txin? := args.txinText.bind Model.parseTxHex
+      match args.script with
+      | some script =>
+        -- explicit script: evaluated as input `nIn` of `tx` (the input spending --txin if given, else input 0)
+        let sel : Option Nat := if args.select > -1 then some args.select.toNat else none
+        let found := txin?.bind (fun t => Spec.spendingInput (Model.txHash Crypto.hash256) tx t.1 sel)
+        if args.txinText.isSome && found.isNone then "REFUSED:txin"
+        else
+          let nIn := match found with | some (k, _) => k | none => 0
+          let amount := (Model.padAmounts amts tx.vin.length).getD nIn 0
+          let spent : List Model.TxOut := match found, txin? with
+            | some (_, n), some (t, _) => if tx.vin.length == 1 then (t.vout[n]?).toList else []
+            | _, _ => []
+          let sv : SigVersion := if Model.hasWitness tx then .WITNESS_V0 else .BASE
+          if !Spec.inDomain 0xba script then "REFUSED:script"
+          else
+            let cfg : Spec.Cfg := { flags := args.flags, sigversion := sv, allowDisabled := args.allowDisabled,
+                                    oracle := Spec.txOracle specPrims tx nIn amount spent sv none none }
+            let t := Spec.evalScript cfg script { stack := args.stackArgs.reverse }
+            match t.result with
+            | .error .SCRIPT_SIZE => s!"REFUSED:env:{ScriptError.SCRIPT_SIZE.code}"
+            | .ok st => s!"steps={t.states.length + (if script.isEmpty then 0 else 1)} end=OK final={joinItems st.stack.reverse}"
+            | .error e => s!"steps={t.states.length} end=ERR:{e.code} final=-"
+      | none =>
+        match txin? with
+        | some (txin, _) =>
+          let sel : Option (Option Nat) := if args.select > -1 then some (some args.select.toNat) else some none
+          match sel.bind (fun s => Spec.verifyInput specPrims (Model.txHash Crypto.hash256) args.flags tx txin s) with
+          | none => "verdict=REFUSED"
+          | some (.ok ()) => "verdict=VALID"
+          | some (.error e) => s!"verdict=INVALID:{e.code}"
+        | none => "verdict=REFUSED"
+
 end Driver
